@@ -7,3 +7,5 @@ uint32_t pos3(void) { return 1 << 31; }                         /* int literal s
 uint32_t neg1(const uint8_t *b) { return (uint32_t)b[0] << 24; } /* fine */
 uint32_t neg2(const uint8_t *b) { return b[0] << 16; }           /* fine */
 uint32_t neg3(void) { return 1u << 31; }                         /* fine */
+uint32_t pos4(unsigned j) { uint32_t g = 0; g |= (1 << j); return g; } /* shift_var.cq: int literal shifted by a variable, result used as unsigned */
+uint32_t neg4(unsigned j) { uint32_t g = 0; g |= (1u << j); return g; } /* fine */
